@@ -15,6 +15,22 @@ HEADER = ('From Coq Require Import List NArith ZArith Bool String Ascii '
 
 IMP_VALUES = ['0', '1', '1', '2', '0.5', '1.0', '0.0', '4', '1e-1', '0.25',
               '8', '0', '16', '3', '1.5']
+# Fortran spellings of reals (read by datacard.to_float on data cards only)
+FORTRAN_VALUES = ['1.0+0', '5-1', '2d0', '1.5D+0', '4.0-1', '2.5+1', '1d-1']
+FORTRAN_ZEROS = ['0.0+0', '0d0', '0-5', '0.D+2']
+FORTRAN_RE = re.compile(r'^([-+]?(?:\d+\.?\d*|\.\d+))[dD]?([-+]?\d+)$')
+
+
+def mcnp_value(spelling):
+    '''Value of a real as MCNP reads it (written here from the manual: an
+    exponent may be introduced by E, D or just its sign).'''
+    try:
+        return float(spelling)
+    except ValueError:
+        m = FORTRAN_RE.match(spelling)
+        return float(m.group(1) + 'e' + m.group(2))
+
+
 ZERO_SPELLINGS = ['0', '0', '0', '0.0', '0.', '.0', '0e0', '-0', '+0.0', '00',
                   '0.000', '0E+1']
 PARTICLES = ['n', 'p', 'e', 'n,p', 'h', 'n,p,e']
@@ -90,13 +106,14 @@ def gen_imp_items(rng, n_cells, zero_bias=0.3, allow_j=False, allow_log=False):
         elif last is not None and last[0] == 'v' and choice < 0.28 \
                 and room >= 2:
             n = rng.randint(1, min(room - 1, 3))
-            sp = rng.choice(IMP_VALUES)
+            sp = rng.choice(IMP_VALUES + FORTRAN_VALUES[:3])
             items.append(('i', n))
-            items.append(('v', float(sp), sp))
+            items.append(('v', mcnp_value(sp), sp))
             count += n + 1
         elif last is not None and choice < 0.38:
-            sp = rng.choice(['2', '0.5', '0', '1', '4', '1.5'])
-            items.append(('m', float(sp), sp))
+            sp = rng.choice(['2', '0.5', '0', '1', '4', '1.5', '2+0', '5-1',
+                             '0d0'])
+            items.append(('m', mcnp_value(sp), sp))
             count += 1
         elif allow_j and last is not None and choice < 0.44:
             n = rng.randint(1, min(room, 2))
@@ -111,10 +128,13 @@ def gen_imp_items(rng, n_cells, zero_bias=0.3, allow_j=False, allow_log=False):
             count += n + 1
         else:
             if rng.random() < zero_bias:
-                sp = rng.choice(ZERO_SPELLINGS) if items else '0'
+                sp = rng.choice(ZERO_SPELLINGS + FORTRAN_ZEROS) if items \
+                    else rng.choice(['0', '0', '0.0+0', '0d0'])
+            elif rng.random() < 0.2:
+                sp = rng.choice(FORTRAN_VALUES)
             else:
                 sp = rng.choice(IMP_VALUES)
-            items.append(('v', float(sp), sp))
+            items.append(('v', mcnp_value(sp), sp))
             count += 1
         last = items[-1]
     return items
@@ -440,6 +460,16 @@ def py_float(tok):
         return None
 
 
+def py_to_float(tok):
+    '''The implementation's own datacard.to_float (a primitive of the model,
+    like float()).'''
+    from MIP.mip.datacard import to_float
+    try:
+        return to_float(tok)
+    except ValueError:
+        return None
+
+
 def c_tables(tokens, transforms):
     from t4_geom_convert.Kernel.Utils import normalize_float
     toks = set()
@@ -449,6 +479,8 @@ def c_tables(tokens, transforms):
     toks.discard('')
     toks = sorted(toks)
     floats = clist(cpair(cstr(t), copt(py_float(t), cfloat)) for t in toks)
+    tofloats = clist(cpair(cstr(t), copt(py_to_float(t), cfloat))
+                     for t in toks)
     norms = []
     for tok in toks:
         try:
@@ -457,7 +489,7 @@ def c_tables(tokens, transforms):
             pass
     trs = clist(cpair(cz(k), clist(cfloat(x) for x in v))
                 for k, v in transforms.items())
-    return f'(mkTables {floats} {clist(norms)} {trs})'
+    return f'(mkTables {floats} {tofloats} {clist(norms)} {trs})'
 
 
 def c_card(cell):
